@@ -24,8 +24,12 @@ def run(tier, v):
         for f, c in x.proj_other.items():
             if f not in init_other:
                 # new file in the project: tolerated only after a kill and only if out of scope
+                failed_unlink = any(o.op == "unlink" and o.res < 0 and o.path.endswith("/" + f) for o in x.trace)
                 if x.signal == signal.SIGKILL and not f.endswith(".rs"):
                     v.notes.append("leftover out-of-scope file after kill: %s" % f) if len(v.notes) < 20 else None
+                elif failed_unlink:
+                    # the run did try to remove it and that very unlink was made to fail: nothing an implementation could do
+                    pass
                 else:
                     bad.append(("new-project-file", f))
             elif c != init_other[f]:
@@ -54,6 +58,22 @@ def run(tier, v):
                    nx, exhaustive=not capped, ops_in_fault_free_run=len(base.trace), files_edited_fault_free=edited)
         if len(v.coverage["samples"]) < 6:
             v.sample({"scenario": sc.name, "fault_free_trace": ["%d:%s %s" % (o.k, o.op, o.path) for o in base.trace if o.cls != "log"][:60]})
+    # recovery: whatever a killed / failed run leaves behind (scratch files, lock scratch), a later fault-free run - after the developer
+    # shortened the files - must rewrite each file exactly as it would in a clean world
+    def oracle_follow(sc, base, x):
+        v.count()
+        v.distinct((sc.name, "follow", x.terminated(), tuple(x.follow["leftovers"]["tmp"]) if x.follow else ()))
+        for cls, what in oracles.check_followup(x):
+            v.violation(cls, {"scenario": sc.name, "first_run_plan": fsx.plan_str(x.plan), "what": what,
+                                                                           "leftovers": x.follow["leftovers"], "then": "developer shortens every file, fault-free edit run"},
+                        replay_files=_replay_files(sc, x), replay_cmd=_replay_cmd(sc, x))
+    for n in ["S2", "S5"] + (["S3", "S6"] if tier == "thorough" else []):
+        sc = scenarios.ALL[n]()
+        sc.name += "+recovery"
+        base, nx, capped = ex.explore(sc, {"kill", "fail"}, 1, oracle_follow, opt={"followup": "shorten"},
+                                      op_filter=lambda o, d, x: o.cls == "w")
+        v.subspace("%s: kill / fault at every mutating operation, then developer edit (files shortened) and a fault-free edit run in the same "
+                   "directories, compared with the same run in a clean world" % sc.name, nx, exhaustive=not capped)
     # the temporary directory on another file system is an environment, not a fault: every rename into the tree fails with EXDEV
     # in every execution, and the single deviations are explored on top of that
     import errno
